@@ -12,6 +12,13 @@ import HeartwoodModel.Driver.Util
   (default policy of the test node: block); visibility `p`ublic / p`r`ivate with the allow list holding
   the `r`equester (1) and/or an`o`ther node (2); `delegate` = the requester is a delegate.
   Output: `served` | `refused`.
+* `v <init p|e> <steps> <requester e|b>` — a HISTORY: the repository (delegates: the serving node 0 and a
+  second delegate 3, seeded) starts `p`ublic or private with the allow list `e` = [requester 1]; every char
+  of `steps` (`-` = none) is a visibility change proposed by node 0, accepted by delegate 3 on its own node
+  and reaching the serving node through a fetch: `n` = private with an empty allow list, `e` = private with
+  allow list [1], `p` = public. Then node 1 (`e`) or the delegate 3 (`b`) requests the repository. The model
+  decides on the CANONICAL document after the last step, under the hypothesis `Env.HeadFresh` (the cached
+  identity head the worker reads is current after every fetch). Output: `served` | `refused`.
 -/
 namespace HeartwoodModel.Driver.C12
 open HeartwoodModel.Pktline HeartwoodModel.Serve HeartwoodModel.Driver.Util
@@ -87,12 +94,43 @@ def runWorker (policy vis allow deleg : String) : String :=
       ridOf := fun b => if b = [0x7A, 0x41] then some 7 else none
       policyOf := fun r => if r = 7 then some pol else some .block
       docOf := fun r => if r = 7 then some { visibility := visib, delegates := if d then [0, 1] else [0] } else none
+      docCanonical := fun r => if r = 7 then some { visibility := visib, delegates := if d then [0, 1] else [0] } else none
       upload := fun _ => [0x50, 0x41, 0x43, 0x4B] }
     match respond env 1 wStream with
     | (.served _, out) => if out.isEmpty then "served-empty" else "served"
     | (.refused _ _, out) => if out.isEmpty then "refused" else "refused-but-sent"
     | (.parseError _, _) => "parse-error"
     | (.panic _, _) => "panic"
+  | _, _, _ => "bad-op"
+
+def visOf (c : Char) : Option (Visibility Nat) :=
+  match c with
+  | 'p' => some .pub
+  | 'n' => some (.priv [])
+  | 'e' => some (.priv [1])
+  | _ => none
+
+def runHistory (init steps req : String) : String :=
+  let chars := (if steps == "-" then [] else steps.toList)
+  let requester : Option Nat := match req with | "e" => some 1 | "b" => some 3 | _ => none
+  match init.toList, chars.mapM visOf, requester with
+  | [i], some vs, some r =>
+    match (if i == 'p' || i == 'e' then visOf i else none) with
+    | none => "bad-op"
+    | some v0 =>
+      let current := (vs.getLast?).getD v0
+      let doc : Doc Nat := { visibility := current, delegates := [0, 3] }
+      let env : Env Nat Nat := {
+        ridOf := fun b => if b = [0x7A, 0x41] then some 7 else none
+        policyOf := fun _ => some .allow
+        docOf := fun rid => if rid = 7 then some doc else none          -- `Env.HeadFresh`
+        docCanonical := fun rid => if rid = 7 then some doc else none
+        upload := fun _ => [0x50, 0x41, 0x43, 0x4B] }
+      match respond env r wStream with
+      | (.served _, _) => "served"
+      | (.refused _ _, _) => "refused"
+      | (.parseError _, _) => "parse-error"
+      | (.panic _, _) => "panic"
   | _, _, _ => "bad-op"
 
 def run (args : List String) : String :=
@@ -102,6 +140,7 @@ def run (args : List String) : String :=
     | some s, some _, some g => runHeader (toBytes s) g
     | _, _, _ => "bad-op"
   | ["w", policy, vis, allow, deleg] => runWorker policy vis allow deleg
+  | ["v", init, steps, req] => runHistory init steps req
   | _ => "bad-op"
 
 end HeartwoodModel.Driver.C12
